@@ -247,22 +247,28 @@ def laneWrites (dst : Nat) (offs : List Nat) : List (Nat × Nat) :=
   (offs.zip (List.range offs.length)).map fun ol => (dst + ol.2, ol.1)
 
 /-- `trivial_assign*(dst, view)`: `for (i=0; i<ROUND_DOWN(size,V); i+=V) eval(i).store(&dst[i])`, scalar tail -/
-def View.trivialAssign (v : View) (V : Nat) : Run :=
+def View.trivialWrites (v : View) (V : Nat) : List (Nat × Nat) :=
   let n := v.size
   let R := roundDownV n V
-  ⟨(forRange 0 R V).flatMap (fun i => laneWrites i (v.evalV V i)) ++
-   (forRange (forExit 0 R V) n 1).map (fun i => (i, v.evalS i)), 0⟩
+  (forRange 0 R V).flatMap (fun i => laneWrites i (v.evalV V i)) ++
+  (forRange (forExit 0 R V) n 1).map (fun i => (i, v.evalS i))
+
+def View.trivialAssign (v : View) (V : Nat) : Run := ⟨v.trivialWrites V, 0⟩
+
+/-- one row of the two-index constructor loop: vector body over `ROUND_DOWN(N,V)`, scalar tail -/
+def View.ctor2Row (v : View) (V N i : Nat) : List (Nat × Nat) :=
+  let R := roundDownV N V
+  (forRange 0 R V).flatMap (fun j => laneWrites (i * N + j) (v.eval2V V i j).2) ++
+  (forRange (forExit 0 R V) N 1).map (fun j => (i * N + j, v.eval2S i j))
 
 /-- the two-index constructor loop (`Tensor(const TensorViewExpr<…,2>&)`, `Tensor(const TensorFixedViewExpr2D&)`
     and the `has_tensor_view && DIMS==2` expression constructors) over the result extents `M × N` -/
+def View.ctor2Writes (v : View) (V M N : Nat) : List (Nat × Nat) :=
+  (List.range M).flatMap (v.ctor2Row V N)
+
 def View.ctor2 (v : View) (V M N : Nat) : Run :=
-  let R := roundDownV N V
-  (List.range M).foldl (fun acc i =>
-    let vec := (forRange 0 R V).foldl (fun (acc : Run) j =>
-      let e := v.eval2V V i j
-      acc.append ⟨laneWrites (i * N + j) e.2, if e.1 then 1 else 0⟩) Run.empty
-    let tail := (forRange (forExit 0 R V) N 1).map fun j => (i * N + j, v.eval2S i j)
-    (acc.append vec).append ⟨tail, 0⟩) Run.empty
+  ⟨v.ctor2Writes V M N,
+   ((List.range M).flatMap fun i => (forRange 0 (roundDownV N V) V).map fun j => (v.eval2V V i j).1).count true⟩
 
 /-- the odometer constructors (`while (counter < size) { …; counter += inc; odometer; if (jt<0) break; }`),
     `inc = V` with `teval` when the view is (strided-)vectorisable, else `inc = 1` with `teval_s` -/
